@@ -1071,10 +1071,12 @@ def _b(V, L, cid):
             C('same filter', lambda: dict(_upd(V, imu), self=L.F.AQUA()), lambda a: getattr(a['self'], name)(*args(a)), tags=('unit', 'single')),
             # the adaptive gain is a function of the CURRENT sample only: the same adaptive filter answers the same call alike, also for a sample
             # whose magnitude is far from gravity (1.5 g) and for one in the transition band (1.15 g)
-            C('same adaptive filter, 1.5 g sample', lambda: dict(_upd(V, imu), self=L.F.AQUA(adaptive=True), scale=1.5),
-              lambda a: getattr(a['self'], name)(*((a['q'], a['gyr'], a['acc'] * a['scale']) + ((a['mag'],) if not imu else ()))), tags=('unit', 'single')),
-            C('same adaptive filter, 1.15 g sample', lambda: dict(_upd(V, imu), self=L.F.AQUA(adaptive=True, alpha=0.3), scale=1.15),
-              lambda a: getattr(a['self'], name)(*((a['q'], a['gyr'], a['acc'] * a['scale']) + ((a['mag'],) if not imu else ()))), tags=('unit', 'single'))]
+            C('same adaptive filter, 1.5 g sample', lambda: dict(_upd(V, imu), self=L.F.AQUA(adaptive=True), scale=1.5 * 9.81),
+              lambda a: getattr(a['self'], name)(*((a['q'], a['gyr'], a['acc'] / np.linalg.norm(a['acc']) * a['scale']) + ((a['mag'],) if not imu else ()))), tags=('unit', 'single')),
+            C('same adaptive filter, 1.0 g sample', lambda: dict(_upd(V, imu), self=L.F.AQUA(adaptive=True, alpha=0.3), scale=9.81),
+              lambda a: getattr(a['self'], name)(*((a['q'], a['gyr'], a['acc'] / np.linalg.norm(a['acc']) * a['scale']) + ((a['mag'],) if not imu else ()))), tags=('unit', 'single')),
+            C('same adaptive filter, 0.93 g sample', lambda: dict(_upd(V, imu), self=L.F.AQUA(adaptive=True, alpha=0.3), scale=9.12),
+              lambda a: getattr(a['self'], name)(*((a['q'], a['gyr'], a['acc'] / np.linalg.norm(a['acc']) * a['scale']) + ((a['mag'],) if not imu else ()))), tags=('unit', 'single'))]
 
 
 @builder('aqua.slerp_I')
